@@ -150,6 +150,13 @@ def fault_session(rng, ops):
     ops.append("check 100 %s" % rng.choice(["clean", "kill"]))
     ops.append("run lateclose 0 0 1 0x0 %s" % " ".join(s.msg(u, "n") for _ in range(2)))
     ops.append("check 100 clean")
+    # two kills in a row: acknowledged messages still in the memtable file when the process dies, then a process that
+    # only opens the store and is killed right after the open returned (badger has replayed and cut the file, the
+    # background flush has not committed yet), then the history is read
+    for _ in range(2):
+        ops.append("run kill 5 0 1 0x0 %s" % " ".join(s.msg(u, "n") for _ in range(5)))
+        ops.append("run kill 0 %d 1 0x0" % rng.choice([0, 0, 200]))
+        ops.append("check 100 %s" % rng.choice(["clean", "kill"]))
 
 
 def gen(rng, tier):
